@@ -475,6 +475,12 @@ fn suites_tree(id: &str, tier: Tier) -> Vec<Suite> {
                 }
                 v.push(Suite { name: "plain", host, programs: plain(tier.pick(2, 3)), bounds: bounds(tier.pick(6, 7), 0, 1, 1, 2) });
             }
+            // the join atoms written for particular defect classes, on every host
+            for host in [HostKind::Direct, HostKind::StreamPoll, HostKind::CoreCmd, HostKind::Bincode, HostKind::Json] {
+                let mut progs = join_busy_programs();
+                progs.extend(join_forward_programs());
+                v.push(Suite { name: "busy-and-forwarding-joins", host, programs: progs, bounds: bounds(tier.pick(6, 7), 0, 1, 1, 2) });
+            }
             v.push(Suite { name: "plain/legacy", host: HostKind::CoreLegacy, programs: legacy_programs(3), bounds: bounds(tier.pick(6, 8), 0, 0, 1, 2) });
             v.push(Suite { name: "mixed-legacy+command", host: HostKind::CoreCmd, programs: mixed_programs(), bounds: bounds(tier.pick(6, 8), 0, 0, 1, 2) });
             v.push(Suite { name: "mixed-legacy+command", host: HostKind::Json, programs: mixed_programs(), bounds: bounds(tier.pick(6, 8), 0, 0, 1, 2) });
